@@ -263,3 +263,24 @@ Print Assumptions per_list_share_le.
 Theorem calc_interval_bounds : forall t s, 100000 <= calc_interval t s <= 1000000.
 Proof. exact ProofsK.calc_interval_bounds. Qed.
 Print Assumptions calc_interval_bounds.
+
+(* waiting_queue_fifo: whatever one event does (insert, erase, any consumer step incl. buffered bytes
+   beyond the grant, unthrottled bytes, update_quota), a connection that is waiting either becomes
+   active / leaves, or stays waiting with NO MORE connections ahead of it than before; an update that
+   finds min_chunk in the pool takes at least one connection off the front. Newly deactivated
+   connections therefore always queue up behind it. *)
+Theorem waiting_queue_fifo :
+  forall id t s e t1 p, tl_inv t -> enabled t = true -> ev_valid t e ->
+  In id (ids (inact t)) -> ev_step t s e = Ok (t1, p) ->
+  In id (ids (act t1)) \/ in_list t1 id = false \/
+  (In id (ids (inact t1)) /\ (ahead id (ids (inact t1)) + good t e <= ahead id (ids (inact t)))%nat).
+Proof. exact ProofsI.ev_progress. Qed.
+Print Assumptions waiting_queue_fifo.
+
+(* every_waiter_served_within: EVERY waiting connection (not only the head of the queue) with n
+   connections ahead of it is active again before the (n+1)-th update that finds min_chunk in the pool *)
+Theorem every_waiter_served_within :
+  forall l t id, tl_inv t -> enabled t = true -> valid_run t l ->
+  In id (ids (inact t)) -> (ahead id (ids (inact t)) < goods t l)%nat -> reactivated id t l.
+Proof. exact ProofsI.list_reactivation_liveness. Qed.
+Print Assumptions every_waiter_served_within.
